@@ -56,9 +56,24 @@ def dkind(dtype):
     return {'i': 'int', 'u': 'int', 'f': 'real', 'c': 'complex'}[k]
 
 
-def signature(api, variant, mode, direction, shin, shout, dtype, offset, clause):
+def bdry_class(dbdry, rbdry):
+    dflag = any(any(p) for p in (dbdry or []))
+    rflag = any(any(p) for p in (rbdry or []))
+    return 'both' if dflag and rflag else ('domain' if dflag else ('range' if rflag else 'none'))
+
+
+def signature(api, variant, mode, direction, shin, shout, dtype, offset, clause, bdry='none'):
     return {'api': api, 'variant': variant, 'mode': mode, 'dir': direction, 'change': change_class(shin, shout),
-            'ndim': '%dd' % len(shin), 'dtype': dkind(dtype), 'offset': offset, 'clause': clause}
+            'ndim': '%dd' % len(shin), 'dtype': dkind(dtype), 'offset': offset, 'nodes_on_bdry': bdry, 'clause': clause}
+
+
+def range_event(cd, g, given):
+    """The 'range' event (geometry of a constructed operator) validated by Trace_Resize."""
+    df, rf = R.flags_of(cd, 'dbdry'), R.flags_of(cd, 'rbdry')
+    hi = [qj(fq(a) + R.span(m, fq(h), f)) for a, m, h, f in zip(cd['lo'], cd['dom'], cd['hs'], df)]
+    return {'kind': 'range', 'lo': cd['lo'], 'hi': hi, 'dom': cd['dom'], 'ran': cd['ran'], 'given': given, 'offs': g['offs'],
+            'ranlo': g['ranlo'], 'ranhi': g['ranhi'], 'ranshape': g['ranshape'], 'rancell': g['rancell'], 'axes': g['axes'],
+            'dbdry': df, 'rbdry': rf, 'rannode0': g['rannode0'], 'invok': g['invok']}
 
 
 def unrot(y, w):
@@ -200,6 +215,55 @@ def replay_case(case, k, log, thorough=False):
                         'offset': offset, 'observed': observed if observed is not None else
                         {kk: res.get(kk) for kk in ('err', 'M', 'aff', 'resp')}})
 
+    if obs['q'] == 'geometry':
+        # operator geometry for every combination of nodes-on-boundary flags of domain and range (1-d)
+        m, n, o = shin[0], shout[0], offs[0]
+        for gi, g in enumerate(obs['geo']):
+            flags = [g['dL'], g['dR'], g['rL'], g['rR']]
+            style = 'alt' if (k + gi) % 2 else 'plain'
+            routes = ['ran_shp'] + (['default'] if (o == 0 and m != n and gi % 3 == 0) else []) + (['range'] if gi % 4 == 1 else [])
+            for route in routes:
+                cd = {'api': 'operator', 'variant': 'call', 'dom': shin, 'ran': shout, 'offs': offs if route != 'default' else [None],
+                      'mode': 'constant', 'c': cj(0), 'x': generic(m, k + gi), 'dtype': 'float64', 'out': 'none', 'D': 1,
+                      'lo': [g['lo']], 'hs': [g['cell']], 'construct': route, 'Dg': 16, 'style': style,
+                      'dbdry': [[g['dL'], g['dR']]], 'rbdry': [[g['rL'], g['rR']]]}
+                y, err, nt, info = R.execute(cd)
+                geo = info.get('geometry')
+                conc = {'kind': 'geometry', 'flags': flags, 'route': route, 'style': style}
+                evs, clauses = [], []
+                if geo is None:
+                    clauses = ['construct-raised']
+                else:
+                    if route == 'default' and geo['offs'] != offs:
+                        # the default offset is judged by the trace specification; the exported case is for `offs`
+                        evs = [range_event(cd, geo, [-1]), (cd, y, err, geo['offs'])]
+                    else:
+                        if geo['rancell'] != [g['cell']]:
+                            clauses.append('cell-side')
+                        if geo['ranlo'] != [g['ranlo']] or geo['ranhi'] != [g['ranhi']]:
+                            clauses.append('range-domain' if n >= m else 'range-domain-shrink')
+                        if geo['rannode0'] != [g['node0']]:
+                            clauses.append('grid-aligned')
+                        if geo['offs'] != (offs if m != n else [0]):
+                            clauses.append('offset')
+                        if not geo['invok']:
+                            clauses.append('inverse-constructible')
+                        if err:
+                            clauses.append('raised')
+                        evs = [range_event(cd, geo, [-1] if route == 'default' else list(offs)), (cd, y, err, geo['offs'])]
+                        if n >= m and not err and geo['invok']:
+                            cd2 = dict(cd, variant='inverse', x=y)
+                            y2, e2, nt2, i2 = R.execute(cd2)
+                            if e2 or y2 != cd['x']:
+                                clauses.append('extend-then-crop')
+                            evs.append((cd2, y2, e2, geo['offs']))
+                results.append({'api': 'ResizingOperator', 'variant': 'construct', 'dtype': 'float64', 'conc': conc, 'clauses': clauses,
+                                'calls': 2, 'notes': [], 'events': evs if (log or clauses) else evs[:1],
+                                'offset': {'default': 'default', 'range': 'from-range'}.get(route, 'explicit'),
+                                'bdry': bdry_class(cd['dbdry'], cd['rbdry']),
+                                'observed': {'geometry': geo, 'err': err, 'expected': g}})
+        return results
+
     if obs['q'] == 'call' and not obs['adm']:
         # outside the documented length restrictions: the implementation is expected to refuse
         x = [cj(1)] * size(shin)
@@ -224,10 +288,11 @@ def replay_case(case, k, log, thorough=False):
             picks += [(DTYPES[(k + 1 + j) % 6], ['none', 'given'][(k + j) % 2], ['C', 'F'][(k + j + 1) % 2]) for j in range(2)]
         for dtype, out, order in picks:
             w = 'i' if dtype.startswith('complex') else 1
+            style = 'alt' if (k // 2) % 2 else 'plain'
             base = {'api': 'resize_array', 'variant': 'array', 'dom': shin, 'ran': shout, 'offs': offs, 'mode': mode,
-                    'dir': direction, 'c': cfg_c(cfg, w), 'dtype': dtype, 'out': out, 'order': order, 'D': 1}
+                    'dir': direction, 'c': cfg_c(cfg, w), 'dtype': dtype, 'out': out, 'order': order, 'D': 1, 'style': style}
             res = probe(base, N, w, log)
-            rec('resize_array', 'array', dtype, {'dtype': dtype, 'out': out, 'order': order, 'kind': 'direct'},
+            rec('resize_array', 'array', dtype, {'dtype': dtype, 'out': out, 'order': order, 'kind': 'direct', 'style': style},
                 ['raised'] if res['err'] else compare(res, mat, aff), res)
         # B. embedded with an untouched extra axis
         dtype = DTYPES[(k + 3) % 6]
@@ -243,10 +308,10 @@ def replay_case(case, k, log, thorough=False):
             construct = ['ran_shp', 'range'][(k + j) % 2]
             base = {'api': 'operator', 'variant': 'call' if fwd else 'adjoint', 'dom': opdom, 'ran': opran, 'offs': offs,
                     'mode': mode, 'c': cfg_c(cfg, w), 'dtype': dtype, 'out': ['none', 'given'][(k + j) % 2], 'D': 1,
-                    'lo': lo, 'hs': hs, 'construct': construct}
+                    'lo': lo, 'hs': hs, 'construct': construct, 'style': 'alt' if (k // 3) % 2 else 'plain'}
             res = probe(base, N, w, log)
             rec('ResizingOperator', base['variant'], dtype, {'dtype': dtype, 'out': base['out'], 'construct': construct,
-                                                             'lo': lo, 'hs': hs, 'kind': 'operator'},
+                                                             'lo': lo, 'hs': hs, 'kind': 'operator', 'style': base['style']},
                 ['raised'] if res['err'] else compare(res, mat, aff), res,
                 offset='from-range' if construct == 'range' else 'explicit')
         # D. numpy.pad where an equivalent mode exists (pure extension)
@@ -349,7 +414,8 @@ def geometry_cases(quick):
 
 
 def run_geometry(dom, ran, offs, k):
-    """Construct the operator, observe geometry and one call.  Returns list of (event-dict | (cd, y, err, offs))."""
+    """Construct the operator, observe geometry and one call.  Returns list of (event-dict | (cd, y, err, offs)).
+    Every second case requests nodes on the boundary: the 16 combinations of (domain L, R, range L, R) rotate per axis."""
     d = len(dom)
     lo = [LOS[(k + a) % len(LOS)] for a in range(d)]
     hs = [HS[(k + 3 * a) % len(HS)] for a in range(d)]
@@ -357,14 +423,24 @@ def run_geometry(dom, ran, offs, k):
     all_none = all(o is None for o in offs)
     cd = {'api': 'operator', 'variant': 'call', 'dom': dom, 'ran': ran, 'offs': offs, 'mode': mode, 'c': cj(0),
           'x': generic(size(dom), k), 'dtype': 'float64', 'out': 'none', 'D': 1, 'lo': [qj(v) for v in lo], 'hs': [qj(v) for v in hs],
-          'construct': 'default' if all_none else 'ran_shp', 'Dg': 8}
+          'construct': 'default' if all_none else 'ran_shp', 'Dg': 16, 'style': 'alt' if k % 3 == 0 else 'plain'}
+    if k % 2:
+        dbdry, rbdry = [], []
+        for a, (m, n) in enumerate(zip(dom, ran)):
+            bits = (k // 2 * 7 + 5 * a) % 16
+            df = [bits >> 3 & 1, bits >> 2 & 1] if m >= 2 else [0, 0]
+            rf = [bits >> 1 & 1, bits & 1] if n >= 2 else [0, 0]
+            dbdry.append(df)
+            rbdry.append(rf)
+        cd.update(dbdry=dbdry, rbdry=rbdry)
+        if k % 8 == 3 and not any(o is None for o in offs):
+            cd['construct'] = 'range'
     y, err, nt, info = R.execute(cd)
     evs = []
     if 'geometry' in info:
         g = info['geometry']
-        evs.append({'kind': 'range', 'lo': cd['lo'], 'hi': [qj(a + m * h) for a, m, h in zip(lo, dom, hs)], 'dom': dom, 'ran': ran,
-                    'given': [-1 if o is None else o for o in offs], 'offs': g['offs'], 'ranlo': g['ranlo'], 'ranhi': g['ranhi'],
-                    'ranshape': g['ranshape'], 'rancell': g['rancell'], 'axes': g['axes']})
+        given = [-1 if o is None else o for o in offs]
+        evs.append(range_event(cd, g, given))
         evs.append((cd, y, err, g['offs']))
     else:
         evs.append({'kind': 'construct-failed', 'err': err, 'note': nt})
@@ -430,9 +506,15 @@ def driver_call(rnd, fam=None):
     x = [rand_c(rnd, cplx, Dx) for _ in range(size(shape_x))]
     cd = {'api': api, 'variant': variant, 'dom': dom, 'ran': ran, 'offs': offs, 'mode': mode, 'dir': direction, 'c': c, 'x': x,
           'dtype': dtype, 'out': rnd.choice(['none', 'given']), 'order': rnd.choice(['C', 'F']), 'D': Dx}
+    cd['style'] = rnd.choice(['plain', 'alt'])
     if api == 'operator':
         cd.update(lo=[qj(rnd.choice(LOS)) for _ in dom], hs=[qj(rnd.choice(HS)) for _ in dom],
                   construct=rnd.choice(['ran_shp', 'range']))
+        if rnd.random() < 0.3:      # nodes on the boundary requested for domain / range (values are not affected)
+            cd['dbdry'] = [[rnd.randint(0, 1), rnd.randint(0, 1)] if m >= 2 else [0, 0] for m in dom]
+            cd['rbdry'] = [[rnd.randint(0, 1), rnd.randint(0, 1)] if n >= 2 else [0, 0] for n in ran]
+        if dtype == 'float64' and variant in ('call', 'derivative') and rnd.random() < 0.2:
+            cd['rdtype'] = 'float32'    # discr_kwargs={'dtype': ...}: range with another data type
     return cd
 
 
@@ -474,6 +556,11 @@ def run(ctx):
         "(documented meaning of `offset`: cells removed from the left)",
         '.inverse: values are compared only where the inverse is a pure cropping (operator = pure extension); for a pure '
         'restriction only "extend by .inverse, then crop by the operator = identity" is required; mixed cases are not judged',
+        'nodes on the boundary (discr_kwargs nodes_on_bdry, and domains that have them): only the GEOMETRY is judged (range limits, '
+        'unchanged cell side, range nodes = continued domain nodes, .inverse constructible, extend-then-crop); the weighted adjoint '
+        'identity on such partitions is the subject of C05; axes with a single node carry no flags',
+        'option spellings exercised: nested-list input, list / tuple shapes, one int offset for all axes, upper-case mode / '
+        'direction strings, 0-d array pad constants, ran_shp / explicit range / default offset, discr_kwargs dtype',
         'all data on integer / half-integer lattices; results are integer combinations of them, compared exactly']
 
     # ---- 1. model runs + export ----
@@ -538,7 +625,7 @@ def run(ctx):
                         ctx.drift_note('%s accepted a configuration outside the documented restrictions: %s' % (r['api'], dumps(cfg)))
                     continue
                 ctx.violation(signature(r['api'], r['variant'], cfg['mode'], cfg['dir'], cfg['shapeIn'], cfg['shapeOut'],
-                                        r['dtype'], r['offset'], clause),
+                                        r['dtype'], r['offset'], clause, r.get('bdry', 'none')),
                               {'stage': 'replay', 'case': case, 'k': k, 'api': r['api'], 'conc': r['conc'], 'observed': r['observed']})
             if len(ctx.samples) < 3 and obs.get('adm') and r['api'] == 'ResizingOperator' and cfg['mode'] == 'order1' \
                     and len(cfg['shapeIn']) == 2 and ci % 11 == 0 and obs['q'] == 'call':
@@ -551,10 +638,11 @@ def run(ctx):
     ngeo = 0
     for dom, ran, offs, k in geometry_cases(quick):
         cd, evs = run_geometry(dom, ran, offs, k)
-        kind = 'default' if all(o is None for o in offs) else 'explicit'
+        kind = 'default' if all(o is None for o in offs) else ('from-range' if cd['construct'] == 'range' else 'explicit')
         for e in evs:
             if isinstance(e, dict) and e.get('kind') == 'construct-failed':
-                ctx.violation(signature('ResizingOperator', 'construct', cd['mode'], 'forward', dom, ran, 'float64', kind, 'construct-raised'),
+                ctx.violation(signature('ResizingOperator', 'construct', cd['mode'], 'forward', dom, ran, 'float64', kind, 'construct-raised',
+                                        bdry_class(cd.get('dbdry'), cd.get('rbdry'))),
                               {'stage': 'geometry', 'dom': dom, 'ran': ran, 'offs': offs, 'k': k, 'observed': e})
                 continue
             if isinstance(e, dict):
@@ -607,7 +695,9 @@ def run(ctx):
     ctx.extra['bounds'] = {
         'one_axis_space': 'n_in, n_out in 1..%d x all offsets x 5 modes x {forward c=0, forward c=3 (constant), adjoint}' % (5 if quick else 7),
         'two_axis_space': 'all shape pairs with per-axis sizes in 1..%d (grow / shrink / same per axis) x all offset pairs x modes x directions' % (3 if quick else 4),
-        'drivers': 'operator geometry: all 1-d (m, n, offset|default) up to %d and %d 2-d mixtures; adjoint identity on all admissible 1-d '
+        'geometry_space': 'every 1-d (m, n, offset) of the one-axis space x 16 combinations of nodes-on-boundary flags (domain L, R; range L, R) '
+                          'exported by TLC and replayed via ran_shp / default-offset / explicit-range construction',
+        'drivers': 'operator geometry: all 1-d (m, n, offset|default) up to %d and %d 2-d mixtures (every second one with rotating boundary flags); adjoint identity on all admissible 1-d '
                    '(m, n, offset, mode) up to 5 and 2-d mixtures up to 3x3; 1-d sizes up to 12 with padding larger than the array; '
                    '%d random calls in 1-3 d' % (5 if quick else 7, 60 if quick else 240, 1500 if quick else 16000)}
     ctx.extra['outside_the_statement'] = outside_statement_observations()
@@ -625,6 +715,21 @@ def outside_statement_observations():
         obs['ResizingOperator.adjoint.inverse'] = 'available'
     except Exception as e:
         obs['ResizingOperator.adjoint.inverse'] = 'raises %s: %s' % (type(e).__name__, str(e)[:80])
+    sp2 = odl.uniform_discr([0, 0], [2, 3], (2, 3))
+    try:
+        odl.ResizingOperator(sp2, ran_shp=(4, 4), discr_kwargs={'nodes_on_bdry': [True, (False, True)]})
+        obs['discr_kwargs nodes_on_bdry mixed bool / pair per axis'] = 'accepted'
+    except Exception as e:
+        obs['discr_kwargs nodes_on_bdry mixed bool / pair per axis'] = 'raises %s' % type(e).__name__
+    kw = {'dtype': 'float32'}
+    odl.ResizingOperator(odl.uniform_discr(0, 3, 3), ran_shp=(5,), discr_kwargs=kw)
+    obs['discr_kwargs dict of the caller is modified (keys popped)'] = (kw == {})
+    for name, args in (('range together with offset', {'offset': 1}), ('range together with ran_shp', {'ran_shp': (5,)})):
+        try:
+            odl.ResizingOperator(odl.uniform_discr(0, 3, 3), odl.uniform_discr(-1, 4, 5), **args)
+            obs[name] = 'accepted'
+        except Exception as e:
+            obs[name] = 'refused with %s' % type(e).__name__
     return obs
 
 
@@ -663,9 +768,11 @@ def validate_events(ctx, events, meta, work, chunk=4000):
             e = events[eid]
             api, variant, dtype, offset = meta[eid]
             clauses = sorted(set(re.findall(r'<<\s*"([\w-]+)"', ctext)))
+            bd = 'none'
             if isinstance(e, dict):
                 if e['kind'] == 'range':
                     mode, direction, dom, ran = 'any', 'forward', e['dom'], e['ran']
+                    bd = bdry_class(e.get('dbdry'), e.get('rbdry'))
                 else:
                     mode, direction, dom, ran = e['_cfg']['mode'], 'adjoint', e['_cfg']['dom'], e['_cfg']['ran']
                 detail = {'stage': 'trace-' + e['kind'], 'event': as_event(e, eid), 'replay': e.get('_replay'), 'tlc_clauses': ctext}
@@ -677,7 +784,7 @@ def validate_events(ctx, events, meta, work, chunk=4000):
                 if clause in DRIFT_CLAUSES:
                     ctx.drift_note('%s %s: %s on %s' % (api, variant, clause, dumps([dom, ran, mode])))
                     continue
-                ctx.violation(signature(api, variant, mode, direction, dom, ran, dtype, offset, clause), detail)
+                ctx.violation(signature(api, variant, mode, direction, dom, ran, dtype, offset, clause, bd), detail)
     ctx.extra['trace_events_validated_by_tlc'] = len(events)
     ctx.extra['trace_events_rejected_by_tlc'] = nfail
 
@@ -729,11 +836,13 @@ def replay(body):
     want = d['conc'].get('kind')
     print('configuration:', dumps(case['cfg']), 'query', case['obs']['q'])
     print('concretisation:', dumps(d['conc']), 'api', d['api'])
-    if case['obs'].get('adm'):
+    if case['obs'].get('adm') and 'mat' in case['obs']:
         print('expected matrix:', dumps(case['obs']['mat']))
         print('expected affine part:', dumps(case['obs']['aff']))
     bad = False
     for r in recs:
+        if 'flags' in d['conc'] and (r['conc'].get('flags') != d['conc']['flags'] or r['conc'].get('route') != d['conc'].get('route')):
+            continue
         if r['api'] != d['api'] or (want and r['conc'].get('kind') != want) or \
                 (r['conc'].get('dtype') and d['conc'].get('dtype') and r['conc']['dtype'] != d['conc']['dtype']):
             continue
